@@ -842,6 +842,89 @@ Definition spec_multi (i o : sx) : bool :=
 Definition wf_step (len : nat) (st : sx) : bool :=
   forallb (fun b => Nat.leb (w_n b) len) (dec_behs (sx_nth st 1)).
 
+(* --- kind 7: overlapping registrations of one name --- *)
+(* G goroutines released from a barrier call RegisterSink (which = 0) / RegisterEncoder
+   (which = 1) at the same time, goroutine g with the name n_g and a factory / constructor
+   of its own, number id_g >= 2.  Go's RegisterSink / RegisterEncoder hold the registry
+   mutex from the duplicate check to the insert, so one call is one atomic step of the
+   functions [register] / [register_enc] above and an execution of the G overlapping calls
+   is a list of such steps: some interleaving (permutation) of the G calls.
+   wire: (7 which ops), ops = ((name id) ...) the calls in the order the harness proposes
+   as the interleaving (the calls that returned nil first: if any interleaving explains
+   what was seen, this one does).  Observation: ((code ...) (look ...) keys), per call the
+   class of the error it returned (rres_code), per call what its name resolves to once all
+   calls have returned (through zap.Open / Config.Build: the number of the factory or
+   constructor that ran, 0/1 for a built-in, -1 for none), and the registered names. *)
+Definition dec_cops (s : sx) : list (bytes * nat) :=
+  map (fun o => (sx_b (sx_nth o 0), sx_n (sx_nth o 1))) (sx_l s).
+Fixpoint conc_sreg (r : sreg) (ops : list (bytes * nat)) : list Z * sreg :=
+  match ops with
+  | [] => ([], r)
+  | op :: t => let cr := register r (fst op) (snd op) in
+               let rest := conc_sreg (snd cr) t in
+               (rres_code (fst cr) :: fst rest, snd rest)
+  end.
+Definition enc_val (op : bytes * nat) : bytes * (nat * bool) := (fst op, (snd op, true)).
+Fixpoint conc_ereg (r : ereg) (ops : list (bytes * nat)) : list Z * ereg :=
+  match ops with
+  | [] => ([], r)
+  | op :: t => let cr := register_enc r (fst op) (snd op, true) in
+               let rest := conc_ereg (snd cr) t in
+               (rres_code (fst cr) :: fst rest, snd rest)
+  end.
+Definition zid (o : option nat) : Z := match o with Some id => Z.of_nat id | None => (-1)%Z end.
+(* Open(name + "://h/x"): newSink looks the lower-cased scheme up *)
+Definition look_s (r : sreg) (n : bytes) : Z :=
+  if is_nil n || negb (valid_scheme n) then (-1)%Z else zid (lookup r (ascii_lower n)).
+(* Config{Encoding: name}.Build(): newEncoder *)
+Definition look_e (r : ereg) (n : bytes) : Z :=
+  if is_nil n then (-1)%Z else zid (option_map fst (lookup r n)).
+Definition obs_conc (codes : list Z) (looks : list Z) (ks : list bytes) : sx :=
+  SL [SL (map SZ codes); SL (map SZ looks); enc_keys ks].
+Definition model_conc (i : sx) : sx :=
+  let ops := dec_cops (sx_nth i 2) in
+  if Z.eqb (sx_z (sx_nth i 1)) 0 then
+    let res := conc_sreg sreg0 ops in
+    obs_conc (fst res) (map (fun op => look_s (snd res) (fst op)) ops) (keys (snd res))
+  else
+    let res := conc_ereg ereg0 ops in
+    obs_conc (fst res) (map (fun op => look_e (snd res) (fst op)) ops) (keys (snd res)).
+
+(* specification: registration is atomic.  Whatever the interleaving, a name is accepted at
+   most once: with the calls listed in an order that explains the results, a call is
+   rejected as "already registered" exactly if a built-in or an EARLIER call of the list
+   designates the same key (scheme up to ASCII case / exact encoder name), empty and
+   malformed names are rejected as such, and afterwards every name resolves to the factory
+   of the first call of its key - the only one that was accepted. *)
+Definition spec_ereg_cls (encs : list (bytes * (nat * bool))) (name : bytes) : Z :=
+  if is_nil name then 1%Z else match spec_enc encs name with Some _ => 3%Z | None => 0%Z end.
+Fixpoint spec_conc_s (names : list (bytes * nat)) (ks : list bytes) (ops : list (bytes * nat)) : list Z * list bytes :=
+  match ops with
+  | [] => ([], ks)
+  | op :: t => let c := spec_reg_cls names (fst op) in
+               let rest := spec_conc_s (names ++ [op]) (if Z.eqb c 0 then ks ++ [ascii_lower (fst op)] else ks) t in
+               (c :: fst rest, snd rest)
+  end.
+Fixpoint spec_conc_e (encs : list (bytes * (nat * bool))) (ks : list bytes) (ops : list (bytes * nat)) : list Z * list bytes :=
+  match ops with
+  | [] => ([], ks)
+  | op :: t => let c := spec_ereg_cls encs (fst op) in
+               let rest := spec_conc_e (encs ++ [enc_val op]) (if Z.eqb c 0 then ks ++ [fst op] else ks) t in
+               (c :: fst rest, snd rest)
+  end.
+Definition spec_look_s (ops : list (bytes * nat)) (n : bytes) : Z :=
+  if is_nil n || negb (valid_scheme n) then (-1)%Z else zid (spec_factory ops (ascii_lower n)).
+Definition spec_look_e (ops : list (bytes * nat)) (n : bytes) : Z :=
+  if is_nil n then (-1)%Z else zid (option_map fst (spec_enc (map enc_val ops) n)).
+Definition spec_conc (i o : sx) : bool :=
+  let ops := dec_cops (sx_nth i 2) in
+  if Z.eqb (sx_z (sx_nth i 1)) 0 then
+    let e := spec_conc_s [] [s_file] ops in
+    sx_eqb o (obs_conc (fst e) (map (fun op => spec_look_s ops (fst op)) ops) (snd e))
+  else
+    let e := spec_conc_e [] [s_console; s_json] ops in
+    sx_eqb o (obs_conc (fst e) (map (fun op => spec_look_e ops (fst op)) ops) (snd e)).
+
 (* --- dispatch on the case kind --- *)
 Definition model (i : sx) : sx :=
   match sx_z (sx_nth i 0) with
@@ -852,6 +935,7 @@ Definition model (i : sx) : sx :=
   | 4%Z => model_ereg i
   | 5%Z => model_mix i
   | 6%Z => model_multi i
+  | 7%Z => model_conc i
   | _ => SL []
   end.
 (* the pre-fix code, for the replay of the [_refuted] witnesses *)
@@ -873,6 +957,7 @@ Definition spec (i o : sx) : bool :=
   | 4%Z => spec_ereg i o
   | 5%Z => spec_mix i o
   | 6%Z => spec_multi i o
+  | 7%Z => spec_conc i o
   | _ => false
   end.
 (* the cases whose observation is a list with one entry per operation *)
@@ -901,5 +986,6 @@ Definition wf (i : sx) : bool :=
   | 4%Z => true
   | 5%Z => forallb wf_op5 (sx_l (sx_nth i 1))
   | 6%Z => forallb (wf_step (sx_n (sx_nth i 3))) (sx_l (sx_nth i 6))
+  | 7%Z => true
   | _ => false
   end.
